@@ -2,6 +2,8 @@ import Driver.Util
 import GFS.Model.Range
 import GFS.Model.RangeHeader
 import GFS.Spec.RangeSpec
+import GFS.Spec.NameSpec
+import GFS.Spec.ChunkSpec
 /-
   gfsdriver: one request per input line, one answer per output line.
   Answer format:  <model observation> TAB <spec observation or "-">
@@ -51,6 +53,33 @@ def getRangeSpec (hdr data : Bytes) : String :=
     | some (f, l) =>
       s!"206 {f}-{l}/{size} {l - f + 1} {toHex ((data.drop f.toNat).take (l - f + 1).toNat)}"
 
+def natList (s : String) : List Nat :=
+  if s == "-" then [] else (s.splitOn ",").map parseNat
+
+/-- fragment lengths → "a read leaving r bytes stops there" -/
+def cutOf (total : Nat) (fragLens : List Nat) : Nat → Bool :=
+  let rems := (fragLens.foldl (fun (acc : Nat × List Nat) l => (acc.1 + l, (total - (acc.1 + l)) :: acc.2)) (0, [])).2
+  fun r => rems.contains r
+
+def showEnd : Option Chunk.End → String
+  | none => "none"
+  | some .eof => "eof"
+  | some _ => "error"
+
+def chunkCfg (tail ewd : String) (total : Nat) (frags : String) : Chunk.Cfg :=
+  { cut := cutOf total (natList frags), tail := if tail == "fail" then .fail else .eof, endWithData := ewd == "1" }
+
+def runChunk (tail ewd bufs frags : String) (input : Bytes) : String :=
+  let (out, e, unk) := Chunk.decode (chunkCfg tail ewd input.length frags) (natList bufs) input
+  if unk then "unknown" else s!"{toHex out} {showEnd e}"
+
+def parseChunks (s : String) : List ChunkSpec.Chunk :=
+  if s == "-" then [] else
+  (s.splitOn ",").map fun c =>
+    match c.splitOn ":" with
+    | [d, e, p, t] => ⟨fromHex d, fromHex e, fromHex p, fromHex t⟩
+    | _ => ⟨[], [], [], []⟩
+
 def handle (toks : List String) : String :=
   match toks with
   | ["range", size, st, en, fe] =>
@@ -59,6 +88,33 @@ def handle (toks : List String) : String :=
   | ["parserange", h] => showReq (parseRangeHeader (fromHex h)) ++ "\t-"
   | ["getrange", fs, h, d] =>
     getRangeModel (fromHex h) (fromHex d) (fs == "1") ++ "\t" ++ getRangeSpec (fromHex h) (fromHex d)
+  | ["validate", n] =>
+    let b := fromHex n
+    (if validateBucketName b then "ok" else "err InvalidBucketName") ++ "\t" ++
+    (if decide (NameOk b) then "ok" else "err InvalidBucketName")
+  | ["chunk", tail, ewd, bufs, frags, inp] =>
+    runChunk tail ewd bufs frags (fromHex inp) ++ "\t-"
+  | ["chunkput", declared, tail, inp] =>
+    -- handler level: what a backend that enforces the declared decoded length stores
+    let input := fromHex inp
+    let cfg : Chunk.Cfg := { cut := fun _ => false, tail := if tail == "fail" then .fail else .eof, endWithData := false }
+    let (out, e, unk) := Chunk.decode cfg [input.length + 1] input
+    if unk then "unknown\t-"
+    else if e == some .eof && out.length == parseNat declared && (parseInt declared) ≥ 0 then s!"stored {toHex out}\t-"
+    else "rejected\t-"
+  | ["chunkwf", tail, ewd, bufs, frags, chunks, final] =>
+    -- a well-formed stream given as chunk descriptors; the specification encodes it
+    let cs := parseChunks chunks
+    match parseChunks final with
+    | [f] =>
+      if decide (ChunkSpec.StreamWF cs f) then
+        let input := ChunkSpec.encode cs f
+        let need := (ChunkSpec.payload cs).length + 1
+        let have_ := (natList bufs).foldl (· + ·) 0
+        let spec := if tail == "eof" && have_ ≥ need then s!"{toHex (ChunkSpec.payload cs)} eof" else "-"
+        runChunk tail ewd bufs frags input ++ "\t" ++ spec
+      else "not-wellformed\t-"
+    | _ => "bad-op\t-"
   | _ => "bad-op\t-"
 
 partial def loop (h : IO.FS.Stream) (out : IO.FS.Stream) : IO Unit := do
